@@ -2,12 +2,18 @@
 //! C07 (replay is path-independent).
 
 mod abs;
+mod c05;
+mod c07;
+mod guard;
+mod tamper;
 mod workload;
 
 fn main() {
     let args = verif_core::Args::parse();
     let code = match args.prop.as_str() {
         "SMOKE" => smoke(&args),
+        "C05" => c05::run(&args),
+        "C07" => c07::run(&args),
         other => {
             println!("HARNESS-ERROR unknown property {other}");
             2
